@@ -31,8 +31,8 @@ def _mc_configs(ctx):
 
 
 def _simulate(ctx):
-    sim = tlc.run(ctx, "QuotaTree", "QuotaTree_sim.cfg", simulate={"num": ctx.pick(25, 300), "file": True},
-                  depth=ctx.pick(8, 10), seed=ctx.seed, workers=1, timeout=1200, name="sim")
+    sim = tlc.run(ctx, "QuotaTree", "QuotaTree_sim.cfg", simulate={"num": ctx.pick(12, 300), "file": True},
+                  depth=ctx.pick(7, 10), seed=ctx.seed, workers=1, timeout=1200, name="sim")
     if sim.kind is not None and sim.kind != "invariant":
         raise InfraError("TLC simulation ended unexpectedly: %s" % sim.summary())
     return tlc.sim_behaviours(sim)
@@ -70,7 +70,7 @@ def run(ctx):
     files = {}
     stats = {}
     # 2a random traces inside the exhaustive bounds and beyond them
-    n_rand = ctx.pick(250, 2500)
+    n_rand = ctx.pick(200, 2500)
     common_env = {"VERIF_NCPU": 3}
     files["random"] = os.path.join(tdir, "random.ndjson")
     stats["random"] = Q.run_driver(ctx, binary, "random", files["random"], dict(common_env, VERIF_N=n_rand, VERIF_LEN=14,
@@ -78,7 +78,7 @@ def run(ctx):
                                    VERIF_MEMVALS="[0,1,1,2,2,3,3,4,4]", VERIF_THRVALS="[0,1,1,2,2,3,3,4,4]",
                                    VERIF_CNTVALS="[0,0,1,2]", VERIF_PCTVALS="[0,50,50,100,100]"))
     files["wide"] = os.path.join(tdir, "wide.ndjson")
-    stats["wide"] = Q.run_driver(ctx, binary, "random", files["wide"], dict(VERIF_NCPU=4, VERIF_N=ctx.pick(80, 800),
+    stats["wide"] = Q.run_driver(ctx, binary, "random", files["wide"], dict(VERIF_NCPU=4, VERIF_N=ctx.pick(60, 800),
                                  VERIF_LEN=24, VERIF_MAXGROUPS=7, VERIF_MAXDEPTH=5, VERIF_MAXROOTS=2, VERIF_CORES=4,
                                  VERIF_MEMVALS="[1,2,3,5,8,13,21]", VERIF_THRVALS="[1,2,3,5,8,13]",
                                  VERIF_CNTVALS="[0,0,1,2,3,4]", VERIF_PCTVALS="[10,25,50,75,100]",
@@ -86,13 +86,30 @@ def run(ctx):
     # 2b enumerated: the complete one-step request domain from random reachable base forests
     files["enum"] = os.path.join(tdir, "enum.ndjson")
     stats["enum"] = Q.run_driver(ctx, binary, "enum", files["enum"], dict(common_env, VERIF_N=ctx.pick(3, 12),
-                                 VERIF_LEN=8, VERIF_ENUM_BUDGET=ctx.pick(2500, 15000), VERIF_MAXGROUPS=4,
+                                 VERIF_LEN=8, VERIF_ENUM_BUDGET=ctx.pick(1500, 15000), VERIF_MAXGROUPS=4,
                                  VERIF_MAXDEPTH=3, VERIF_MAXROOTS=1, VERIF_MEMVALS="[0,2]", VERIF_THRVALS="[2]",
                                  VERIF_CNTVALS="[0,1,2]", VERIF_PCTVALS="[0,50,100]", VERIF_CORES=2))
+    # 2b' directed family: all depth-3 shapes P > [unlimited] > G > [unlimited] > leaf (+ sibling that leaves P nearly
+    # full) x every limit raise of the mid-level group G across the boundaries of P's remaining room, for memory,
+    # threads and CPU (quick: P=5, sibling in {full-1, full}; thorough: P in 4..6, every sibling size)
+    files["directed"] = os.path.join(tdir, "directed.ndjson")
+    stats["directed"] = Q.run_driver(ctx, binary, "directed", files["directed"],
+                                     dict(common_env, VERIF_MAXGROUPS=6, VERIF_MAXDEPTH=5, VERIF_MAXROOTS=1,
+                                          VERIF_DIR_LPS=ctx.pick("[5]", "[4,5,6]"), VERIF_DIR_ALLS=ctx.pick(0, 1)))
     # the statement violations and refused-but-changed observations of these runs do not need TLC at all
     early = {k: common.read_ndjson(p) for k, p in files.items()}
     ctx.log("driver stats so far: %s; real statement violations so far: %d"
             % (stats, sum(len(Q.real_violations(r)) for r in early.values())))
+    # validation of these traces does not depend on the design part either: start it now (own JVMs)
+    chunks = []
+    for k in ("directed", "random", "wide", "enum"):
+        for j, rs in enumerate(Q.chunk_rows(early[k], ctx.pick(1, 4))):
+            p = os.path.join(tdir, "chunk_%s_%d.ndjson" % (k, j))
+            common.write_ndjson(p, rs)
+            chunks.append((k, p, rs))
+    vpool = ThreadPoolExecutor(max_workers=2)
+    f_neg = vpool.submit(_negative_binding_control, ctx, early["random"], tdir)
+    f_tvs = vpool.submit(Q.validate_files, ctx, [p for _, p, _ in chunks], ctx.pick(1200, 1700))
 
     mcs = f_mc.result()
     wits = f_wit.result()
@@ -149,18 +166,18 @@ def run(ctx):
 
     rows = {k: common.read_ndjson(p) for k, p in files.items()}
 
-    # ---------------- 3. validate every recorded event against the trace spec (chunks in parallel JVMs)
-    chunks = []
-    for k in ("random", "wide", "enum", "replay"):
-        for j, rs in enumerate(Q.chunk_rows(rows[k], ctx.pick(1, 4))):
-            p = os.path.join(tdir, "chunk_%s_%d.ndjson" % (k, j))
-            common.write_ndjson(p, rs)
-            chunks.append((k, p, rs))
-    pool = ThreadPoolExecutor(max_workers=2)
-    f_neg = pool.submit(_negative_binding_control, ctx, rows["random"], tdir)
-    tvs = Q.validate_files(ctx, [p for _, p, _ in chunks], timeout=ctx.pick(1200, 1700))
+    # ---------------- 3. validate every recorded event against the trace spec (chunks in parallel JVMs; the chunks
+    # that do not depend on TLC's behaviours were started in step 2)
+    rchunks = []
+    for j, rs in enumerate(Q.chunk_rows(rows["replay"], ctx.pick(1, 4))):
+        p = os.path.join(tdir, "chunk_replay_%d.ndjson" % j)
+        common.write_ndjson(p, rs)
+        rchunks.append(("replay", p, rs))
+    rtvs = Q.validate_files(ctx, [p for _, p, _ in rchunks], timeout=ctx.pick(1200, 1700), base=100) if rchunks else []
+    tvs = f_tvs.result() + rtvs
+    chunks = chunks + rchunks
     neg = f_neg.result()
-    pool.shutdown()
+    vpool.shutdown()
     n_traces = 0
     n_lines = 0
     rejected_cases = set()
@@ -187,7 +204,7 @@ def run(ctx):
     # ---------------- 4. the statement on the real forests (driver's own evaluation)
     found = {}
     n_real_viol = 0
-    for k in ("replay", "random", "enum", "wide"):
+    for k in ("replay", "directed", "random", "enum", "wide"):
         for v in Q.real_violations(rows[k]):
             n_real_viol += 1
             if v["kind"] == "accepted-breaks-fits":
@@ -207,7 +224,7 @@ def run(ctx):
                 if cur is None or rank < cur[0]:
                     found[cl] = (rank, v)
     class_counts = {}
-    for k in ("replay", "random", "enum", "wide"):
+    for k in ("replay", "directed", "random", "enum", "wide"):
         for v in Q.real_violations(rows[k]):
             cl = "+".join(v["cls"]) if v["kind"] == "accepted-breaks-fits" else v["kind"]
             class_counts[cl] = class_counts.get(cl, 0) + 1
